@@ -60,8 +60,10 @@ ALT_NAMES = ["value", "input", "from"]      # named like the expansions' own par
 
 
 def fn(key, i):
-    """name of the i-th named field: a, b, c - or, for half of the cases, names the expansions use themselves"""
-    return ALT_NAMES[i] if vlib.seeded_pick(str(key), 29, 2) == 0 else "abc"[i]
+    """name of the i-th named field: a, b, c - or, for a third of the cases each, names the expansions use themselves,
+    and keywords as raw identifiers"""
+    pick = vlib.seeded_pick(str(key), 29, 3)
+    return ALT_NAMES[i] if pick == 0 else (["r#type", "r#fn", "r#match"][i] if pick == 1 else "abc"[i])
 
 
 def tup(items):
@@ -387,16 +389,18 @@ def key_of_into2(c):
 def constructor_modules():
     out = []
     for n in range(0, 4):
-        for named in (False, True, "alt"):
-            k = f"constructor|n{n}|{'named' if named is True else ('tuple' if not named else 'named_alt')}"
-            if named == "alt" and n == 0:
+        for named in (False, True, "alt", "raw"):
+            k = f"constructor|n{n}|{'named' if named is True else ('tuple' if not named else 'named_' + named)}"
+            if named in ("alt", "raw") and n == 0:
                 continue
+            # "raw": fields named by keywords (`r#type`): the parameters of `new` are those fields' names
+            name_of = (lambda f: ["r#type", "r#fn", "r#match"][f]) if named == "raw" else (lambda f: fn(k, f))
             if n == 0:
                 body = " {}" if named else "();"
             else:
-                body = (" { " + ", ".join(f"pub {fn(k, f)}: P1" for f in range(n)) + " }") if named else ("(" + ", ".join(["pub P1"] * n) + ");")
+                body = (" { " + ", ".join(f"pub {name_of(f)}: P1" for f in range(n)) + " }") if named else ("(" + ", ".join(["pub P1"] * n) + ");")
             args = ", ".join(f"P1({f + 1})" for f in range(n))
-            got = "vec![" + ", ".join(f"s.{(fn(k, f) if named else f)}.0" for f in range(n)) + "]" if n else "Vec::<u8>::new()"
+            got = "vec![" + ", ".join(f"s.{(name_of(f) if named else f)}.0" for f in range(n)) + "]" if n else "Vec::<u8>::new()"
             want = "[" + ", ".join(str(f + 1) for f in range(n)) + "]"
             mod = (f"use super::*;\n#[derive(derive_more::Constructor)]\npub struct S{body}\npub const C: S = S::new({args});\n"
                    f"pub fn run() {{ let s = S::new({args}); let mut rows: Vec<String> = vec![]; rows.push(format!(\"new {{:?}}\", {got}));\n"
